@@ -16,7 +16,7 @@ one() {
   if ! git -C $WT apply $(realpath seeded/$s/patch.diff) 2>/dev/null; then for p in $props; do printf "%s\t%s\tn/a\tpatch does not apply\n" $s $p; done; git -C /repo worktree remove --force $WT; return; fi
   myprops=$props; [ "${MATRIX_PROPS:-}" = own ] && myprops=${s%%-*}
   for p in $myprops; do
-    out=$(VERIF_ROOT=$PWD OFV_EVIDENCE_DIR=/tmp/seedmx/ev-$s OFV_NO_SEED_AUDIT=1 ./bin/ofverify check $p --repo $WT 2>&1); rc=$?
+    out=$(VERIF_ROOT=$PWD OFV_EVIDENCE_DIR=/tmp/seedmx/ev-$s OFV_NO_SEED_AUDIT=1 ${OFV_BIN:-./bin/ofverify} check $p --repo $WT 2>&1); rc=$?
     if [ $rc -eq 1 ]; then printf "%s\t%s\tcaught\t%s\n" $s $p "$(echo "$out" | grep -E "^(VIOLATION|UNDECIDED|UNMAPPED) $p/" | head -1 | cut -d' ' -f2)"
     elif [ $rc -eq 0 ]; then printf "%s\t%s\tsilent\t\n" $s $p; else printf "%s\t%s\terror\t%s\n" $s $p "$(echo "$out" | tail -1 | cut -c1-120)"; fi
   done
